@@ -131,6 +131,10 @@ type Result struct {
 	// was not given it as an argument (results must not share state with later calls).
 	MutatedLater string `json:"mutated_later,omitempty"`
 	obj          *canvas.Path
+	// again, if set, recomputes a content hash of another kind of returned object (the pixels of a
+	// rasterised image); againHash is its value when the call returned.
+	again     func() uint64
+	againHash uint64
 	// RepeatDiff is set when the call was asked to repeat itself on the very same input objects and
 	// the second output differed from the first ("repeated calls with the same inputs ...").
 	RepeatDiff string `json:"repeat_diff,omitempty"`
